@@ -1244,6 +1244,8 @@ impl<const LENGTH: usize> TryFrom<&[u8]> for HeapByteArray<LENGTH> {
 impl From<&[u8]> for HeapBytes {
     fn from(src: &[u8]) -> Self {
         let mut arr = Self::default();
+        // `copy_from_slice` panics unless both lengths are equal: size the (empty) buffer first
+        arr.resize(src.len(), 0);
         arr.0.copy_from_slice(src);
         arr
     }
